@@ -70,22 +70,93 @@ def vtype(name):
 
 
 def lowpass(f0):
+    """`f0` a number: Hermitian low-pass; `["nh", f0, phase]`: a response that is NOT Hermitian (constant phase,
+    magnitude in |f|), for which force_real=True and False give different signals"""
+    if isinstance(f0, (list, tuple)):
+        _, fc, ph = f0
+
+        def resp_nh(f):
+            return np.exp(1j * ph) / (1 + 1j * np.abs(np.asarray(f, dtype=float)) / fc)
+        return resp_nh
+
     def resp(f):
         return 1 / (1 + 1j * np.asarray(f) / f0)
     return resp
+
+
+def indep_filter(vals, dt, fn, force_real):
+    """Signal.filter_frequencies recomputed with numpy alone: zero-pad to 2N, multiply the spectrum by the response
+    (force_real: response at |f|, complex-conjugated at negative frequencies), inverse transform, real part, N samples"""
+    n = len(vals)
+    freqs = np.fft.fftfreq(2 * n, dt)
+    if force_real:
+        h = np.array(fn(np.abs(freqs)), dtype=complex)
+        h[freqs < 0] = np.conj(h[freqs < 0])
+    else:
+        h = np.array(fn(freqs), dtype=complex)
+    spec_ = np.fft.fft(np.concatenate((np.array(vals, dtype=float), np.zeros(n))))
+    return np.real(np.fft.ifft(h * spec_)[:n])
+
+
+def independent_response(spec):
+    """the antenna's frequency response recomputed from its parameters, sharing nothing with any antenna object
+    (dipole: first-order Butterworth band-pass bw*s / (s^2 + bw*s + w_low*w_high), s = 2 pi i f)"""
+    if spec["kind"] in ("dip", "sysdip"):
+        w1 = 2 * np.pi * (spec["cf"] - spec["bw"] / 2)
+        w2 = 2 * np.pi * (spec["cf"] + spec["bw"] / 2)
+
+        def resp(f):
+            s_ = 2j * np.pi * np.asarray(f, dtype=float)
+            return (w2 - w1) * s_ / (s_ * s_ + (w2 - w1) * s_ + w1 * w2)
+        return resp
+    if spec.get("fresp") is not None:
+        return lowpass(spec["fresp"])
+    return lambda f: np.ones(len(f))
+
+
+def as_form(v, form):
+    """the same vector in another container / dtype form"""
+    if v is None:
+        return None
+    if form == "list":
+        return [float(c) for c in v]
+    if form == "tuple":
+        return tuple(float(c) for c in v)
+    if form == "pyint":          # only used with integer-valued vectors
+        return [int(c) for c in v]
+    if form == "intarray":
+        return np.array([int(c) for c in v])
+    if form == "f32":            # only used with float32-representable values
+        return np.array(v, dtype=np.float32)
+    return np.array(v, dtype=float)
+
+
+FORMS = ["array", "array", "list", "tuple"]
+
+
+def _scribble(*arrs):
+    """the caller reuses its own arrays after handing them over: an antenna must not have kept a reference"""
+    for a in arrs:
+        if isinstance(a, np.ndarray):
+            a[...] = 7
 
 
 def build(spec):
     """-> (object the calls go to, the underlying Antenna)"""
     from pyrex.antenna import Antenna, DipoleAntenna
     from pyrex.detector import AntennaSystem
+    form = spec.get("form", "array")
     if spec["kind"] in ("dip", "sysdip"):
+        z_arg = as_form(spec["z"], form)
         with rand_tape(spec["tape"]):
-            inner = DipoleAntenna("d", np.array(spec["pos"]), spec["cf"], spec["bw"], 300, 50,
-                                  orientation=np.array(spec["z"]), effective_height=spec.get("eh"), noisy=False)
+            inner = DipoleAntenna("d", as_form(spec["pos"], form), spec["cf"], spec["bw"], 300, 50,
+                                  orientation=z_arg, effective_height=spec.get("eh"), noisy=False)
+        _scribble(z_arg)
     else:
-        inner = Antenna(np.array(spec["pos"]), z_axis=np.array(spec["z"]), x_axis=np.array(spec["x"]),
+        z_arg, x_arg = as_form(spec["z"], form), as_form(spec["x"], form)
+        inner = Antenna(as_form(spec["pos"], form), z_axis=z_arg, x_axis=x_arg,
                         antenna_factor=spec["af"], efficiency=spec["eff"], noisy=False)
+        _scribble(z_arg, x_arg)
         c = spec.get("gains")
         if c is not None:
             inner.directional_gain = lambda theta, phi: np.sin(theta) * (c[0] + c[1] * np.cos(phi) + c[6] * np.sin(phi)) + c[2] * theta
@@ -103,10 +174,13 @@ def apply_record(outer, inner, rec):
     """one step of an object's history (no signal involved); -> False when set_orientation raised"""
     k = rec[0]
     if k == "so":        # through the object the calls go to (Antenna or AntennaSystem delegation)
+        z_arg, x_arg = np.array(rec[1], dtype=float), np.array(rec[2], dtype=float)
         try:
-            outer.set_orientation(z_axis=np.array(rec[1]), x_axis=np.array(rec[2]))
+            outer.set_orientation(z_axis=z_arg, x_axis=x_arg)
         except ValueError:
             return False
+        finally:
+            _scribble(z_arg, x_arg)
     elif k == "pos":
         inner.position = np.array(rec[1])
     elif k == "af":
@@ -214,7 +288,7 @@ def rand_spec(run, kind):
             break
     x = x / np.linalg.norm(x) * rng.choice([1.0, 2.5, 0.4])
     spec = {"kind": kind, "pos": [rng.uniform(-100, 100), rng.uniform(-100, 100), rng.uniform(-300, -10)],
-            "z": [float(c) for c in z]}
+            "z": [float(c) for c in z], "form": rng.choice(FORMS)}
     if kind in ("dip", "sysdip"):
         cf = rng.uniform(150e6, 600e6)
         spec.update(cf=cf, bw=rng.uniform(0.1, 0.9) * cf, eh=rng.choice([None, None, rng.uniform(0.2, 2.0)]),
@@ -225,7 +299,7 @@ def rand_spec(run, kind):
         if kind in ("custom", "syscustom"):
             spec["gains"] = [rng.uniform(1, 3), rng.uniform(-1, 1), rng.uniform(-0.3, 0.3),
                              rng.uniform(-1, 1), rng.uniform(-1, 1), rng.uniform(-1, 1), rng.uniform(-1, 1)]
-            spec["fresp"] = rng.choice([None, rng.uniform(1e8, 8e8)])
+            spec["fresp"] = rng.choice([None, rng.uniform(1e8, 8e8), ["nh", rng.uniform(1e8, 8e8), rng.uniform(0.3, 1.2)]])
     return spec
 
 
@@ -310,6 +384,9 @@ def rand_record(run, spec):
         return ["so", [float(c) for c in a * (R @ st["z"])], [float(c) for c in b * (R @ st["x"])]]
     if k == "so-new":
         z, x = perp_pair(rng)
+        if rng.random() < 0.4:      # exactly unit vectors (nothing to normalise)
+            z, x = rng.choice([([0.0, 0.0, 1.0], [1.0, 0.0, 0.0]), ([0.6, 0.8, 0.0], [0.0, 0.0, -1.0]),
+                               ([0.0, -1.0, 0.0], [0.8, 0.0, 0.6])])
         return ["so", z, x]
     if k == "so-bad":       # raises ValueError, but the axes have been replaced already
         z, x = perp_pair(rng)
@@ -331,7 +408,7 @@ def rand_use(run, n=None, dt=None, keep=None):
     """one signal handed to the antenna: apply_response, receive of one signal or of polarised components;
     `keep` (a dict living as long as the history) makes direction and polarisation recur between steps"""
     use = _rand_use(run, n, dt)
-    if keep is not None:
+    if keep is not None and use["form"] in ("array", "list", "tuple"):
         if "direction" in keep and use["direction"] is not None and run.rng.random() < 0.6:
             use["direction"] = keep["direction"]
             if "polarization" in use and use["polarization"] is not None:
@@ -351,7 +428,8 @@ def _rand_use(run, n=None, dt=None):
     nn = len(sd["vals"])
     op = rng.choice(["respond", "respond", "receive1", "receive"])
     use = {"op": op, "signal": sd, "direction": None if rng.random() < 0.1 else gvec(rng, rng.choice([1.0, 20.0])),
-           "force_real": rng.random() < 0.6}
+           "force_real": rng.random() < 0.6, "form": rng.choice(FORMS), "seqform": rng.choice(["list", "tuple"])}
+    special = rng.choice(["pyint", "intarray"]) if rng.random() < 0.15 else None
     if op == "receive":
         use["components"] = [{"vals": [rng.gauss(0, 1) for _ in range(nn)],
                               "vt": rng.choice(["field", "voltage", "field", "voltage", "undefined", "power"]) if rng.random() < 0.25
@@ -360,6 +438,20 @@ def _rand_use(run, n=None, dt=None):
     else:
         use["vt"] = rng.choice(["field", "field", "voltage", "voltage", "voltage", "undefined"])
         use["polarization"] = None if rng.random() < 0.1 else gvec(rng)
+    if special:                  # integer-valued / single-precision vectors in the matching container forms
+        use["form"] = special
+
+        def conv(v):
+            if v is None:
+                return None
+            if special == "f32":
+                return [float(np.float32(c)) for c in v]
+            return [float(c) for c in rng.sample([-3, -2, -1, 1, 2, 3, 5], 3)]
+        use["direction"] = conv(use["direction"])
+        if "polarization" in use:
+            use["polarization"] = conv(use["polarization"])
+        for c in use.get("components", []):
+            c["pol"] = conv(c["pol"])
     return use
 
 
@@ -367,26 +459,48 @@ def run_use(outer, inner, use):
     """-> values of the response / of the newly stored signal, or "err" (ValueError, nothing stored)"""
     from pyrex.signals import Signal
     sd, fr = use["signal"], use["force_real"]
-    d = None if use["direction"] is None else np.array(use["direction"])
+    form = use.get("form", "array")
+    d = as_form(use["direction"], form)
     before = len(inner.signals)
+    handed = []      # caller-owned objects handed over, with a private copy each
+
+    def own(x):
+        if x is not None:
+            handed.append((x, np.array(x, dtype=float).copy()))
+        return x
+    own(d)
     try:
         if use["op"] == "respond":
-            out = outer.apply_response(mk_signal(sd, use["vt"]), direction=d, force_real=fr,
-                                       polarization=None if use["polarization"] is None else np.array(use["polarization"]))
+            sig_in = mk_signal(sd, use["vt"])
+            out = outer.apply_response(sig_in, direction=d, force_real=fr, polarization=own(as_form(use["polarization"], form)))
             if len(inner.signals) != before:
                 return "stored-by-apply_response"
+            sigs_in = [(sig_in, sd["vals"], use["vt"])]
         else:
             if use["op"] == "receive1":
-                outer.receive(mk_signal(sd, use["vt"]), direction=d, force_real=fr,
-                              polarization=None if use["polarization"] is None else np.array(use["polarization"]))
+                sig_in = mk_signal(sd, use["vt"])
+                outer.receive(sig_in, direction=d, force_real=fr, polarization=own(as_form(use["polarization"], form)))
+                sigs_in = [(sig_in, sd["vals"], use["vt"])]
             else:
-                outer.receive([mk_signal(dict(sd, vals=c["vals"]), c["vt"]) for c in use["components"]], direction=d,
-                              polarization=[np.array(c["pol"]) for c in use["components"]], force_real=fr)
+                sl = [mk_signal(dict(sd, vals=c["vals"]), c["vt"]) for c in use["components"]]
+                pl = [own(as_form(c["pol"], form)) for c in use["components"]]
+                if use.get("seqform") == "tuple":
+                    sl, pl = tuple(sl), tuple(pl)
+                outer.receive(sl, direction=d, polarization=pl, force_real=fr)
+                sigs_in = [(s_, c["vals"], c["vt"]) for s_, c in zip(sl, use["components"])]
             if len(inner.signals) != before + 1:
                 return "stored-%d" % (len(inner.signals) - before)
             out = inner.signals[-1]
     except ValueError:
         return "err" if len(inner.signals) == before else "stored-despite-error"
+    if not isinstance(out, Signal):
+        return "stored-a-%s" % type(out).__name__
+    for x, keep_ in handed:
+        if not np.array_equal(np.array(x, dtype=float), keep_):
+            return "modified-argument"
+    for s_, v_, t_ in sigs_in:     # the incoming (plain) signals are the caller's too
+        if not np.array_equal(np.asarray(s_.values), np.array(v_, dtype=float)) or s_.value_type != vtype(t_):
+            return "modified-input-signal"
     if out.value_type != Signal.Type.voltage:
         return "not-voltage"
     n_ = len(sd["vals"])
@@ -402,13 +516,14 @@ def zero_gain_case(run):
     rng = run.rng
     axes = [[1.0, 0, 0], [0, 1.0, 0], [0, 0, 1.0]]
     i, j = rng.sample(range(3), 2)
-    sz, sx = rng.choice([1.0, -1.0, 2.0, -0.5]), rng.choice([1.0, -1.0, 4.0])
+    form = rng.choice(["array", "list", "tuple", "pyint", "intarray"])
+    sz, sx = rng.choice([1.0, -1.0, 2.0, -0.5] if form not in ("pyint", "intarray") else [1.0, -1.0, 2.0]), rng.choice([1.0, -1.0, 4.0])
     z = [sz * c for c in axes[i]]
     x = [sx * c for c in axes[j]]
     zhat = [math.copysign(1.0, sz) * c for c in axes[i]]
     kind = rng.choice(["dip", "sysdip", "custom", "syscustom", "unit", "dip"])
     pos = [rng.choice([0.0, 8.0, -16.0]), rng.choice([0.0, 4.0]), rng.choice([-128.0, -32.0])]
-    spec = {"kind": kind, "pos": pos, "z": z, "hist": []}
+    spec = {"kind": kind, "pos": pos, "z": z, "hist": [], "form": form}
     if kind in ("dip", "sysdip"):
         cf = rng.uniform(150e6, 600e6)
         spec.update(cf=cf, bw=rng.uniform(0.1, 0.9) * cf, eh=rng.choice([None, 0.5]), tape=[rng.random() for _ in range(3)])
@@ -417,8 +532,9 @@ def zero_gain_case(run):
         if kind in ("custom", "syscustom"):
             spec["gains"] = [rng.uniform(1, 3), rng.uniform(-1, 1), rng.uniform(-0.3, 0.3), 0.0, rng.uniform(0.5, 1), 0.0,
                              rng.uniform(-1, 1)]
-            spec["fresp"] = rng.choice([None, rng.uniform(1e8, 8e8)])
-    ways = ["eff0", "af-inf"] if kind == "unit" else ["eff0", "af-inf", "along-axis", "perp-pol", "perp-pol", "along-axis"]
+            spec["fresp"] = rng.choice([None, rng.uniform(1e8, 8e8), ["nh", rng.uniform(1e8, 8e8), rng.uniform(0.3, 1.2)]])
+    ways = ["eff0", "af-inf"] if kind == "unit" else ["eff0", "af-inf", "along-axis", "perp-pol", "perp-pol", "along-axis",
+                                                       "zero-direction", "zero-pol"]
     way = rng.choice(ways)
     direction, pol = gvec(rng), gvec(rng)
     if way == "eff0":
@@ -431,6 +547,10 @@ def zero_gain_case(run):
             spec["hist"] = [["af", float("inf")]]
         else:
             spec["af"] = float("inf")
+    elif way == "zero-direction":  # normalize leaves the zero vector alone: the arrival point is the antenna position
+        direction = [0.0, 0.0, 0.0]   # -> (r, theta, phi) = (0, 0, 0), sin(theta) = 0
+    elif way == "zero-pol":
+        pol = [0.0, 0.0, 0.0]
     elif way == "along-axis":     # the signal travels along -z_axis: it arrives from the axis direction, theta = 0
         a = rng.choice([1.0, 2.0, 0.25])
         direction = [-a * c for c in zhat]
@@ -439,7 +559,8 @@ def zero_gain_case(run):
         pol = [rng.choice([1.0, -2.0]) * c for c in axes[rng.choice(k)]]
     sd = rand_signal(run, rng.choice([8, 12, 16]))
     op = rng.choice(["respond", "receive1", "receive"])
-    use = {"op": op, "signal": sd, "direction": direction, "force_real": rng.random() < 0.6}
+    use = {"op": op, "signal": sd, "direction": direction, "force_real": rng.random() < 0.6,
+           "form": rng.choice(FORMS), "seqform": rng.choice(["list", "tuple"])}
     vts = ["undefined", "voltage", "field", "power"]
     if op == "receive":
         use["components"] = [{"vals": [rng.gauss(0, 1) for _ in sd["vals"]], "vt": rng.choice(vts), "pol": pol}
@@ -460,9 +581,8 @@ def expected_use(spec, use, fresh_inner):
         return "err"
     tot = 0.0
     for c in comps:
-        base = mk_signal(dict(sd, vals=c["vals"]), c["vt"])
-        base.filter_frequencies(fresh_inner.frequency_response, force_real=fr)
-        tot = tot + np.real(base.values) * expected_gain_factor(spec, st, use["direction"], c["pol"], c["vt"])
+        filtered = indep_filter(c["vals"], sd["dt"], independent_response(spec), fr)
+        tot = tot + filtered * expected_gain_factor(spec, st, use["direction"], c["pol"], c["vt"])
     return [float(v) for v in tot]
 
 
@@ -472,9 +592,7 @@ def use_scale(spec, use, fresh_inner):
     comps = [sd["vals"]] if use["op"] != "receive" else [c["vals"] for c in use["components"]]
     m = 0.0
     for v in comps:
-        base = mk_signal(dict(sd, vals=v), "voltage")
-        base.filter_frequencies(fresh_inner.frequency_response, force_real=use["force_real"])
-        m += float(np.max(np.abs(base.values)))
+        m += float(np.max(np.abs(indep_filter(v, sd["dt"], independent_response(spec), use["force_real"]))))
     return m * abs(st["eff"]) * max(1.0, 1.0 / abs(st["af"])) * 4 + 1e-300
 
 
@@ -539,7 +657,7 @@ def filter_toks(spec, inner, sd, force_real):
         b, a = inner.filter_coeffs
         return "B %s %s %s %d" % (fw.fl(np.real(b)), fw.fl(np.real(a)), fw.fl([sd["dt"]]), 1 if force_real else 0)
     freqs = scipy.fft.fftfreq(n=2 * n, d=sd["dt"])
-    h = Signal._get_filter_response(freqs, inner.frequency_response, force_real)
+    h = Signal._get_filter_response(freqs, independent_response(spec), force_real)
     flat = []
     for c in h:
         flat += [float(c.real), float(c.imag)]
@@ -696,7 +814,8 @@ def correspondence(run):
             outer.receive(sigs, direction=np.array(direction), polarization=pols, force_real=force_real)
             tot = inner.signals[-1]
             ok_len = len(inner.signals) == before + 1
-            exp = [float(v) for v in np.real(tot.values)] if ok_len and tot.value_type == Signal.Type.voltage else "bad"
+            exp = [float(v) for v in np.real(tot.values)] if (ok_len and isinstance(tot, Signal) and
+                                                              tot.value_type == Signal.Type.voltage) else "bad"
         except ValueError:
             exp = "err"
             if len(inner.signals) != before:
@@ -772,7 +891,7 @@ def correspondence(run):
         specs = [rand_spec(run, rng.choice(["dip", "sysdip", "custom", "dip"])) for _ in range(2)]
         for sp in specs:
             if sp.get("gains") is not None:
-                sp["fresp"] = rng.uniform(1e8, 8e8)
+                sp["fresp"] = rng.choice([rng.uniform(1e8, 8e8), ["nh", rng.uniform(1e8, 8e8), rng.uniform(0.3, 1.2)]])
         ants = [build(sp) for sp in specs]
         sig = make_input(desc)
         twin = make_input(desc)
@@ -1063,7 +1182,7 @@ def oracle_plain(kind, inp):
         o1, _ = build(rotated(spec, R))
         r1 = resp(o1, sd, vt, R @ direction, R @ pol)
         base = mk_signal(sd, vt)
-        base.filter_frequencies(inner.frequency_response, force_real=fr)
+        base.values = indep_filter(sd["vals"], sd["dt"], independent_response(spec), fr)
         ref = float(np.max(np.abs(base.values))) * max(1.0, abs(inner.efficiency / (inner.antenna_factor if vt == "field" else 1)))
         if not np.allclose(r0, r1, rtol=0, atol=1e-8 * max(sc, ref)):
             return r1[:4].tolist(), r0[:4].tolist(), "response changes when axes, direction and polarisation are rotated together"
@@ -1079,7 +1198,7 @@ def oracle_plain(kind, inp):
     elif kind == "factor":
         # filtered signal x gains x efficiency (/ antenna factor for fields), gains recomputed independently
         base = mk_signal(sd, vt)
-        base.filter_frequencies(inner.frequency_response, force_real=fr)
+        base.values = indep_filter(sd["vals"], sd["dt"], independent_response(spec), fr)
         zh = np.array(spec["z"]) / np.linalg.norm(spec["z"])
         dh = direction / np.linalg.norm(direction)
         ph_ = pol / np.linalg.norm(pol)
@@ -1131,6 +1250,19 @@ def oracle_plain(kind, inp):
         scr = sum(float(np.max(np.abs(p))) for p in parts) + 1e-300
         if len(i2.signals) != 1 or not np.allclose(got, want, rtol=0, atol=1e-9 * scr):
             return got[:4].tolist(), want[:4].tolist(), "received signal is not the sum of the polarised components' responses"
+        # a different number of polarisations than signals is rejected, nothing is stored
+        for drop in (1, -1):
+            o4, i4 = build(spec)
+            sigs = [mk_signal(dict(sd, vals=c["vals"]), c["vt"]) for c in comps]
+            pols = [np.array(c["pol"]) for c in comps]
+            pols = pols[:-1] if drop == 1 else pols + [pol]
+            try:
+                o4.receive(sigs, direction=direction, polarization=pols, force_real=fr)
+                return ("accepted, %d stored" % len(i4.signals), "ValueError", "receive accepts %d signals with %d polarisations"
+                        % (len(sigs), len(pols)))
+            except ValueError:
+                if len(i4.signals) != 0:
+                    return ("stored", "nothing stored", "receive stored a signal although it raised")
         # a component that is neither field nor voltage is rejected wherever it stands, nothing is stored
         for pos_ in range(len(comps) + 1):
             for bad in ("undefined", "power"):
@@ -1199,7 +1331,7 @@ def gen_input(run, kind):
         ants = [rand_spec(run, rng.choice(["dip", "dip", "sysdip", "custom"])) for _ in range(rng.choice([1, 2, 3]))]
         for sp in ants:
             if sp.get("gains") is not None:
-                sp["fresp"] = rng.uniform(1e8, 8e8)
+                sp["fresp"] = rng.choice([rng.uniform(1e8, 8e8), ["nh", rng.uniform(1e8, 8e8), rng.uniform(0.3, 1.2)]])
         d0 = rand_input_desc(run)
         descs = [d0]
         if d0["kind"] in ("fn", "fnsum") and rng.random() < 0.7:
@@ -1220,7 +1352,7 @@ def gen_input(run, kind):
     elif kind == "reorient":
         use = rand_use(run)
         use.update(op=rng.choice(["respond", "receive1"]), vt=rng.choice(["field", "voltage"]),
-                   direction=gvec(rng), polarization=gvec(rng))
+                   direction=gvec(rng), polarization=gvec(rng), form=rng.choice(FORMS))
         use.pop("components", None)
         return {"spec": spec, "use": use, "rotations": [rand_rotation(rng).tolist() for _ in range(rng.choice([1, 2, 3]))]}
     return inp
